@@ -407,10 +407,10 @@ class Model:
         self.live_lit = self._reach(lit_succ)
 
         def may_succ(n):
-            out = list(n.succ) + list(n.skip)
-            if n.idx not in self.live_all:
-                out = [s for s in out if s not in self.live_all]
-            return out
+            # edges out of dead code count as well: the compiler joins the types (and assignments) that
+            # unreachable blocks carry into live ones (e.g. a dead `continue` back to a live loop head), which
+            # belongs to the same tolerated class - G_may is only ever used as the *upper* bound
+            return list(n.succ) + list(n.skip)
 
         self.live_may = self._reach(may_succ)
         pA = self._preds(all_succ, self.live_all)
